@@ -36,7 +36,7 @@ def check(ctx):
         n, length = (1200, 15) if ctx.tier == "quick" else (40000, 30)
         found = vlib.generic_stateful_stream(ctx, "aggstore", "aggstore C06", n, length, sig)
         # the same fresh-store / from-scratch comparison for a real krill aggregate (RepositoryAccess)
-        n, length = (16, 10) if ctx.tier == "quick" else (300, 16)
+        n, length = (16, 10) if ctx.tier == "quick" else (150, 16)
         found |= vlib.generic_stateful_stream(ctx, "aggstore", "aggstore C06", n, length, sig,
                                               extra_args=["--real"], corpus="aggstore-real")
     else:
